@@ -190,6 +190,7 @@ pub fn main(args: &[String]) -> i32 {
     let saturate = o.num("saturate", 0u32) == 1;
     let highpct = o.num("highpct", 0u32);
     let bias = o.get("bias").unwrap_or("").to_string();
+    let cachebias = o.num("cachebias", 0u32) == 1;
     let dir = o.get("dir").unwrap_or("/dev/shm").to_string();
     let path = format!("{dir}/seq_{}_{}.feox", std::process::id(), seed);
     let _ = std::fs::remove_file(&path);
@@ -339,6 +340,21 @@ pub fn main(args: &[String]) -> i32 {
             forced.push_back((21, 0));
             forced.push_back((108, 0));
             forced.push_back((100, 0));
+            forced.push_back((105, 0));
+        }
+        // targeted burst (C16, store level; drawn only when asked for, so every other workload keeps its programs): a
+        // short-lived key is written and flushed (its value leaves memory), read twice while alive (the bytes enter the
+        // read cache when it is on), time passes beyond the deadline, then reads and a scan - what the cache holds for
+        // a generation must not outlive that generation's expiry
+        if cachebias && forced.is_empty() && cfg.pers && cfg.ttl && cfg.fmt != 1 && key.len() < 100 && rng.random_range(0..40) == 0 {
+            forced_key = Some(ki);
+            forced.push_back((103, 2));
+            forced.push_back((22, 0));
+            forced.push_back((105, 0));
+            forced.push_back((105, 0));
+            for _ in 0..3 { forced.push_back((21, 0)); }
+            forced.push_back((105, 0));
+            forced.push_back((19, 50));
             forced.push_back((105, 0));
         }
         match bias.as_str() {
